@@ -12,6 +12,7 @@ import (
 	"path/filepath"
 	"sync"
 	"sync/atomic"
+	"time"
 
 	ledgerpkg "github.com/xuperchain/xupercore/bcs/ledger/xledger/ledger"
 	"github.com/xuperchain/xupercore/bcs/ledger/xledger/state"
@@ -344,6 +345,27 @@ func (n *Node) Reopen() error {
 func (n *Node) Destroy() {
 	n.Close()
 	DropWorld(worldDir(n.Conf))
+}
+
+// MinerStartSync runs the node's REAL miner loop (Miner.Start) until it has brought the state machine in line with the
+// ledger and asks the consensus for its turn (first CompeteMaster call of the stub consensus), then stops it. This is
+// what a restarted node does before anything else.
+func (n *Node) MinerStartSync(wait time.Duration) error {
+	if n.Miner == nil || n.Cons == nil {
+		return fmt.Errorf("harness: node without miner")
+	}
+	ch := make(chan struct{}, 1)
+	n.Cons.OnCompete = ch
+	go n.Miner.Start()
+	var err error
+	select {
+	case <-ch:
+	case <-time.After(wait):
+		err = fmt.Errorf("the miner loop did not get past its start-up synchronisation within %v", wait)
+	}
+	n.Miner.Stop()
+	n.Cons.OnCompete = nil
+	return err
 }
 
 // OpenImage opens a second node on the disk image made of the first k records of the write log.
